@@ -85,9 +85,9 @@ def plan(ctx):
     k = P.per_interp_shards(ctx)
     for v in ctx.producers:
         if ctx.tier == "quick":
-            cases = P.corpus_cases(ctx, v, n_files=250, n_w3=120, modes=30, max_file_bytes=200000)
+            cases = P.corpus_cases(ctx, v, n_files=250, n_extra=30, n_w3=120, modes=30, max_file_bytes=200000)
         else:
-            cases = P.corpus_cases(ctx, v, all_files=True, n_w3=1000, modes=150)
+            cases = P.corpus_cases(ctx, v, all_files=True, all_extra=True, n_w3=1000, modes=150)
         for id_, src, opt in sweep_sources(P.pyver(v), ctx.tier, ctx.seed):
             cases.append({"k": "src", "id": id_, "text": src, "filename": "<sweep>", "opt": opt})
         shards.extend(P.split(ctx, v, cases, k, "C04:"))
